@@ -38,7 +38,9 @@ def writable_globals(cfg):
     try:
         for f in C.SRC_FILES:
             o = os.path.join(d, f[:-2] + ".o")
-            subprocess.run(["gcc", "-std=c11", "-O2", "-msse4.2", "-w"] + C.CFGS[cfg] + ["-I" + os.path.join(C.REPO, "src"), "-I" + os.path.join(C.REPO, "include"),
+            # -fno-pic: position-dependent code keeps `static const` tables that hold pointers in .rodata; with the default -fPIE they move to
+            # .data.rel.ro (nm type d) although nothing can write them after relocation - that had been reported as a writable global
+            subprocess.run(["gcc", "-std=c11", "-O2", "-msse4.2", "-w", "-fno-pic", "-fno-pie"] + C.CFGS[cfg] + ["-I" + os.path.join(C.REPO, "src"), "-I" + os.path.join(C.REPO, "include"),
                             "-c", os.path.join(C.REPO, "src", f), "-o", o], check=True, stdout=subprocess.PIPE, stderr=subprocess.PIPE)
             out = subprocess.run(["nm", "-S", o], stdout=subprocess.PIPE, text=True).stdout
             for ln in out.split("\n"):
